@@ -101,6 +101,15 @@ TREE_FILES = [
 ]
 
 APIS = ["sfd_abs", "sfd_rel", "sfd_empty", "sdm_abs", "sdm_slash", "sdm_rel", "sdm_pkg"]
+# growth: more loader kinds / options / argument types.  api -> (exported root relative to the package dir,
+# does the serving model "the file the normalised path names" apply?)
+APIS2 = {"sdm_nocache": ("root", True), "sdm_timeout": ("root", True), "sdm_disallow": ("root", False),
+         "sdm_file": ("root/a.txt", False), "sdm_pkg_sub": ("root/sub", True), "sdm_pkg_all": ("", True),
+         "sfd_pathlike": ("root", True), "sfd_cwd": ("root", True)}
+
+
+def rootrel_of(api: str) -> str:
+    return APIS2[api][0] if api in APIS2 else "root"
 
 
 class Tree:
@@ -118,12 +127,25 @@ class Tree:
             with open(p, "wb") as f:
                 f.write(content)
             self.by_content[content] = fid
+        # growth (a): symbolic links inside the root that point outside (observation only, never a verdict)
+        for name, target in (("link.txt", "../secret.txt"), ("linkdir", "../rootx")):
+            lp = os.path.join(self.root, name)
+            if not os.path.lexists(lp):
+                os.symlink(target, lp)
         self.apps = None
 
-    def line(self) -> dict:
+    def line(self, rootrel: str = "root") -> dict:
+        """the tree as seen from an exported root given relative to the package directory ("" = the package
+        directory itself; a file path = a single exported file)"""
         files = []
-        for fid, rel, inside in TREE_FILES:
-            files.append({"id": fid, "inside": inside, "rel": cps(rel[len("root/"):]) if inside else cps("-")})
+        for fid, rel, _ in TREE_FILES:
+            if rootrel == "":
+                inside, r = not rel.startswith("../"), rel
+            elif rel == rootrel:
+                inside, r = True, "."
+            else:
+                inside, r = rel.startswith(rootrel + "/"), rel[len(rootrel) + 1:]
+            files.append({"id": fid, "inside": inside, "rel": cps(r) if inside else cps("-")})
         return {"op": "tree", "files": files}
 
     def served_id(self, body: bytes) -> int:
@@ -154,6 +176,13 @@ class Tree:
                 "sdm_slash": (SharedDataMiddleware(fallback, {"/": self.root}), "/"),
                 "sdm_rel": (rel, "/static/"),
                 "sdm_pkg": (SharedDataMiddleware(fallback, {"/pkg": (PKG, "root")}), "/pkg/"),
+                "sdm_nocache": (SharedDataMiddleware(fallback, {"/static": self.root}, cache=False,
+                                                     fallback_mimetype="text/x-verif"), "/static/"),
+                "sdm_timeout": (SharedDataMiddleware(fallback, {"/static": self.root}, cache_timeout=1), "/static/"),
+                "sdm_disallow": (SharedDataMiddleware(fallback, {"/static": self.root}, disallow="*.txt"), "/static/"),
+                "sdm_file": (SharedDataMiddleware(fallback, {"/robots.txt": os.path.join(self.root, "a.txt")}), "/robots.txt/"),
+                "sdm_pkg_sub": (SharedDataMiddleware(fallback, {"/pkgsub": (PKG, "root/sub")}), "/pkgsub/"),
+                "sdm_pkg_all": (SharedDataMiddleware(fallback, [("/all", (PKG, ""))]), "/all/"),
             }
         return self.apps
 
@@ -175,12 +204,26 @@ def serve_line(tree: Tree, api: str, raw: str) -> dict:
 
     decoded_bytes = unquote_to_bytes(raw)
     path = decoded_bytes.decode("utf-8", "replace")  # == get_path_info / what routing hands to a view
-    ln = {"op": "serve", "api": api, "raw": cps(raw), "path": cps(path), "status": 0, "served": 0, "exc": ""}
+    ln = {"op": "serve", "api": api, "raw": cps(raw), "path": cps(path), "status": 0, "served": 0, "exc": "",
+          "model": APIS2[api][1] if api in APIS2 else True}
     try:
         if api.startswith("sfd"):
             env = _environ(b"/" + decoded_bytes)
             try:
-                if api == "sfd_abs":
+                if api == "sfd_pathlike":
+                    import pathlib
+
+                    pp = pathlib.PurePosixPath(path)
+                    ln["path"] = cps(os.fspath(pp))      # what the helper is handed
+                    rv = send_from_directory(pathlib.Path(tree.root), pp, env)
+                elif api == "sfd_cwd":
+                    cwd0 = os.getcwd()
+                    os.chdir(tree.pkgdir)
+                    try:
+                        rv = send_from_directory("root", path, env)
+                    finally:
+                        os.chdir(cwd0)
+                elif api == "sfd_abs":
                     rv = send_from_directory(tree.root, path, env)
                 elif api == "sfd_rel":
                     rv = send_from_directory("root", path, env, _root_path=tree.pkgdir)
@@ -195,6 +238,8 @@ def serve_line(tree: Tree, api: str, raw: str) -> dict:
             rv.close()
         else:
             app, prefix = tree._apps()[api]
+            if api == "sdm_file" and raw == "":
+                prefix = "/robots.txt"          # the exact export key
             env = _environ(prefix.encode() + decoded_bytes)
             got = {}
 
@@ -329,4 +374,27 @@ def random_san_cases(rng: random.Random, n: int):
             else:
                 s.append(chr(rng.randrange(0x3000)))
         out.append(["".join(s)])
+    return out
+
+
+# ------------------------------------------------------------------------------- growth: observations
+LINK_TARGETS = ["link.txt", "linkdir/secret.txt", "linkdir/a.txt", "linkdir/../a.txt", "sub/../link.txt"]
+WINDOWS_DEVICE_NAMES = ["CON", "PRN", "AUX", "NUL", "COM1", "COM2", "COM3", "COM4", "LPT1", "LPT2", "LPT3",
+                        "con", "Con.txt", "nul.tar.gz", "COM1.", "LPT1 ", " aux", "CON/x", "a/NUL"]
+
+
+def bytes_directory_probe(tree: Tree) -> dict:
+    """send_from_directory with bytes arguments (outside the documented str / PathLike[str] domain)"""
+    from werkzeug.utils import send_from_directory
+
+    out = {}
+    for name, d, p in (("bytes directory", os.fsencode(tree.root), "a.txt"), ("bytes path", tree.root, b"a.txt"),
+                       ("both bytes", os.fsencode(tree.root), b"../secret.txt")):
+        try:
+            rv = send_from_directory(d, p, _environ(b"/"))
+            rv.direct_passthrough = False
+            out[name] = f"{rv.status_code} file id {tree.served_id(rv.get_data())}"
+            rv.close()
+        except Exception as e:
+            out[name] = type(e).__name__
     return out
